@@ -220,7 +220,7 @@ def proc_spec(draw):
         'kill': k,
         'phase': p,
         'value': draw(st.one_of(st.integers(-3, 3), st.text(max_size=4), st.none(), st.lists(st.integers(0, 3), max_size=3))),
-        'exc': draw(st.sampled_from(['ValueError', 'KeyError', 'CustomError', 'CustomError2'])),
+        'exc': draw(st.sampled_from(['ValueError', 'KeyError', 'CustomError', 'CustomError2', 'TimeoutError'])),
         'code': draw(st.integers(2, 5)),
         'accessors': draw(st.permutations(['join', 'result', 'exception', 'done', 'exitcode', 'wait', 'as_completed'])),
         'log_lines': draw(st.sampled_from([0, 0, 3])),
@@ -229,6 +229,7 @@ def proc_spec(draw):
         'linger_ms': draw(st.sampled_from([0, 0, 0, 2500])) if k == 'none' else 0,
         'linger_first': draw(st.sampled_from(['wait', 'as_completed'])),
         'reap_delay_ms': draw(st.sampled_from([0, 0, 300])),
+        'gc_probe': draw(st.sampled_from([False, False, True])),
     }
 
 
@@ -261,6 +262,8 @@ def run_proc_case(spec):
             raise Violation('wait_wrong', f'wait(timeout=0.15) while running reported {rec[1]}', signature=['wait_wrong', 'process'])
         if name == 'join' and rec[1] != 'None':
             raise Violation('join_raised', f'join(0.1) while running gave {rec[1]}', signature=['join_raised', 'running'])
+    if res.get('gc_probe') == 'deadlock':
+        raise Violation('finalizer_deadlock', f'after {ending}/{kill}/{spec["phase"]}: collecting the Process object while a thread is inside threading.py\'s start/stop critical section dead-locked that thread (a finalizer of the object joins a thread there); from then on no thread of the parent can be started or joined, e.g. the next Process.start() hangs', signature=['finalizer_deadlock', kill])
     lp = res.get('linger_probe')
     if lp is not None:
         if not lp['said_done']:
@@ -331,7 +334,7 @@ def run_proc_case(spec):
     return CaseInfo(
         nontrivial=not (ending == 'return' and kill == 'none'),
         descriptor=[spec['cell'], spec['accessors'][0], spec['exc'] if ending == 'raise' else None],
-        classes=('process', f'cell_{ending}_{kill}_{spec["phase"]}', 'first_' + spec['accessors'][0], 'kill_missed' if res.get('kill_missed') else 'as_planned', 'probed_while_running' if res.get('running') else 'not_probed', 'lingering_child' if spec.get('linger_ms') else 'prompt_exit', 'reaper_delayed' if spec.get('reap_delay_ms') else 'reaper_prompt'),
+        classes=('process', f'cell_{ending}_{kill}_{spec["phase"]}', 'first_' + spec['accessors'][0], 'kill_missed' if res.get('kill_missed') else 'as_planned', 'probed_while_running' if res.get('running') else 'not_probed', 'lingering_child' if spec.get('linger_ms') else 'prompt_exit', 'reaper_delayed' if spec.get('reap_delay_ms') else 'reaper_prompt', 'gc_probe' if res.get('gc_probe') else 'no_gc_probe'),
         sample={'ending': ending, 'kill': kill, 'phase': spec['phase'], 'accessors': list(spec['accessors']), 'records': recs},
     )
 
